@@ -41,6 +41,15 @@ TBegin ==    /\ Has(vl, "enter") /\ vpc = "idle"
              /\ vpc' = "source" /\ vfftthreads' = << >> /\ vkernel' = FALSE /\ vres' = <<0, FALSE, << >>>>
              /\ vl' = vl + 1
              /\ UNCHANGED <<vthreads, vnumba, vcompiled, vmgr, vfftw, vcreated, vhist, vwis, vwisload>>
+\* a solve that ends early: an explicit error (event raise) or a result served from the cache (return_cached)
+TAbort ==    /\ (Has(vl, "raise") \/ Has(vl, "return_cached")) /\ vpc \in {"source", "threads"}
+             /\ vpc' = "idle" /\ vl' = vl + 1 /\ vres' = <<0, FALSE, << >>>>
+             /\ UNCHANGED <<vthreads, vnumba, vcompiled, vmgr, vfftw, vcreated, vreq, vkernel, vfftthreads, vhist, vwis, vwisload>>
+\* the user (a test) creates a manager directly, outside a solve: get_fft_manager(num_threads = n)
+TDirectCreate == /\ Has(vl, "mgr_create") /\ vpc = "idle"
+                 /\ vmgr' = Ev(vl).threads /\ vfftw' = Ev(vl).fftw /\ vcreated' = vcreated + 1 /\ vl' = vl + 1
+                 /\ vwisload' = CASE vwis = "ok" -> "loaded" [] vwis = "missing" -> "skipped" [] OTHER -> "ignored"
+                 /\ UNCHANGED <<vthreads, vnumba, vcompiled, vpc, vreq, vkernel, vfftthreads, vhist, vres, vwis>>
 TSource ==   /\ SourceFFT /\ EnsureEvents(vl) /\ vl' = vl + Used
 TThreads ==  /\ ThreadSetup /\ EnsureEvents(vl)
              /\ IF vreq.an THEN vl' = vl + Used
@@ -61,6 +70,6 @@ TKernel ==   /\ Kernel
 TFinal ==    /\ FinalFFT /\ EnsureEvents(vl) /\ vl' = vl + Used
 TReturn ==   /\ Return /\ Has(vl, "return") /\ Ev(vl).mgr = vmgr /\ vl' = vl + 1
 
-TNext == TExtInit \/ TWis \/ TSet \/ TReset \/ TBegin \/ TSource \/ TThreads \/ TKernel \/ TFinal \/ TReturn
+TNext == TAbort \/ TDirectCreate \/ TExtInit \/ TWis \/ TSet \/ TReset \/ TBegin \/ TSource \/ TThreads \/ TKernel \/ TFinal \/ TReturn
 Report == PrintT("@@" \o ToJson([l |-> vl, pc |-> vpc]))
 =============================================================================
